@@ -468,6 +468,14 @@ def r_delay(E):
     outer = next((n for n in ast.walk(fn) if isinstance(n, ast.For) and norm(n.iter).endswith(".uj_steps")), None)
     counted = False
     if outer is None:
+        # the walk over the steps written as a generator function of the module / class that yields (job, delay) pairs,
+        # consumed by a loop or a sum(): read as the generator's body with the consumer in place of the yield
+        from ..astutil import inline_generator_loops as _igl
+        fn_g = _igl(fn, pm.helper_finder("JobBase"), pm.function_finder(rel))
+        o2 = next((n for n in ast.walk(fn_g) if isinstance(n, ast.For) and norm(n.iter).endswith(".uj_steps")), None)
+        if o2 is not None:
+            fn, outer = fn_g, o2
+    if outer is None:
         # the steps wrapped one by one into small records / tuples first: `pairs = [Rec(step, f(step)) for step in
         # ….uj_steps]; for p in pairs: … p.field …` reads as the loop over the steps with each `p.field` replaced by the
         # expression the record was built with
@@ -555,7 +563,9 @@ def r_delay(E):
         # the same enumeration written with itertools: the steps zipped with the running total of the time spent in
         # the steps *before* each of them — accumulate(<step.user_time_spent for step in the same steps>, initial=<empty>)
         # — and the job placed once per matching job of the step, shifted by that running total
-        from ..astutil import fully_expanded as _fxd
+        from ..astutil import fully_expanded as _fxd, fuse_generators as _fuse
+        # (the (job, delay) pairs may come out of a generator helper: read fused with the comprehension that consumes them)
+        fn_orig, fn = fn, _fuse(fn, pm.helper_finder("JobBase"), pm.function_finder(rel))
         for z in [n for n in ast.walk(fn) if isinstance(n, ast.Call) and isinstance(n.func, ast.Name) and n.func.id == "zip"
                   and len(n.args) == 2]:
             steps, delays = _fxd(z.args[0], fn), _fxd(z.args[1], fn)
@@ -625,6 +635,25 @@ def r_delay(E):
             res.instances += 1
             res.floor = 3
             return res
+        # a running total that advances once per (step, job) listing instead of once per step
+        from ..astutil import nodes_through_helpers as _nth_d, view_root as _vr_d
+        for acc in [n for n in _nth_d(fn_orig, pm.helper_finder("JobBase"), depth=2, find_function=pm.function_finder(rel))
+                    if isinstance(n, ast.Call) and isinstance(n.func, ast.Name) and n.func.id == "accumulate" and n.args]:
+            owner = _vr_d(acc)[0] or fn_orig
+            src = _fxd(acc.args[0], owner)
+            if isinstance(src, (ast.GeneratorExp, ast.ListComp)) and len(src.generators) == 1 \
+                    and norm(src.elt).endswith(".user_time_spent"):
+                it = _fxd(src.generators[0].iter, owner)
+                if isinstance(it, (ast.GeneratorExp, ast.ListComp)) and len(it.generators) >= 2 \
+                        and any(norm(g.iter).endswith(".jobs") for g in it.generators[1:]) \
+                        and norm(it.generators[0].iter).endswith(".uj_steps"):
+                    res.findings.append(Finding(
+                        "R-DELAY", "delay increment per job",
+                        f"the running total of the delay advances once per (step, job) listing — over "
+                        f"`{norm(it)[:70]}` — instead of once per step: a step with several jobs (or none) shifts the "
+                        f"later occurrences by the wrong time", rel, acc.lineno, fn_orig.name))
+                    res.floor = 1
+                    return res
         res.undecided.append("no loop over uj_steps")
         return res
     step = norm(outer.target)
@@ -632,6 +661,17 @@ def r_delay(E):
     if inner is None and counted:
         inner = counted
     incs = [s for s in outer.body if isinstance(s, ast.AugAssign) and isinstance(s.op, ast.Add)]
+    if inner is not None and not incs:
+        deep = [s for s in ast.walk(inner) if isinstance(s, ast.AugAssign) and isinstance(s.op, ast.Add)
+                and norm(s.value) == f"{step}.user_time_spent"]
+        if deep:
+            res.findings.append(Finding(
+                "R-DELAY", "delay increment per job",
+                f"the delay is increased by the step's user_time_spent inside the loop over the step's jobs — once per job "
+                f"of the step instead of once per step: a step with several jobs (or none) shifts the later occurrences "
+                f"by the wrong time", rel, deep[0].lineno, fn.name))
+            res.floor = 1
+            return res
     if inner is None or len(incs) != 1:
         res.undecided.append("step loop shape not recognised")
         return res
